@@ -112,13 +112,15 @@ def scheme_legal(s):
 
 # ----------------------------------------------------------------------------- concretisation pools
 
-def theme(a, ae, b, du, ul, dv, dw, wl, dt, x, y, xe, s, t, sr, inv):
+def theme(a, ae, b, du, ul, dv, dw, wl, dt, x, y, xe, s, t, sr, inv, pv):
     i1, i1l, i2 = inv       # escapes of octets that are not valid UTF-8: two spellings of one, and a different one
     th = {
         "seg": {"a": a, "ae": ae, "b": b, "ue": url_encode(du), "ul": ul, "ur": du,
                 "v": dv, "we": url_encode(dw), "wl": wl, "tr": dt, "e": "",
-                "i1": i1, "i1l": i1l, "i2": i2, "rf": url_encode(pct_decode(i1))},
-        "dec": {"a": pct_decode(a), "b": pct_decode(b), "u": du, "v": dv, "w": dw, "t": dt, "r": pct_decode(i1)},
+                "i1": i1, "i1l": i1l, "i2": i2, "rf": url_encode(pct_decode(i1)),
+                "pe": url_encode(pv), "pr": pv},
+        "dec": {"a": pct_decode(a), "b": pct_decode(b), "u": du, "v": dv, "w": dw, "t": dt, "r": pct_decode(i1),
+                "p": pv, "q": pct_decode(pv)},
         "name": {"x": x, "y": y, "xe": xe},
         "scheme": {"s": s, "t": t, "sr": sr},
     }
@@ -143,7 +145,11 @@ def theme(a, ae, b, du, ul, dv, dw, wl, dt, x, y, xe, s, t, sr, inv):
         except UnicodeDecodeError:
             pass
     assert pct_octets(rf).decode("utf-8") == dc["r"] and all(uri_legal_text(z) for z in (i1, i1l, i2, rf))
-    assert len(set(dc.values())) == 7 and all(dc.values())
+    # "p": a value text that looks percent-encoded itself (unreserved characters and well-formed %XX only, at least one
+    # triple): data, so apply must escape its '%'; read verbatim it would be another text ("q")
+    assert all(c in UNRESERVED or c == "%" for c in pv) and uri_legal_text(pv) and "%" in pv
+    assert pct_decode(pv) != pv and url_encode(pv) != pv and pct_decode(url_encode(pv)) == pv
+    assert len(set(dc.values())) == 9 and all(dc.values())
     assert all(":" not in z and "/" not in z for z in (a, ae, b, ul, wl))
     assert pct_decode(x) == x and pct_decode(y) == y and pct_decode(xe) == x and len({x, y, xe}) == 3
     assert all(":" not in n and "/" not in n and n for n in (x, y, xe))
@@ -154,17 +160,17 @@ def theme(a, ae, b, du, ul, dv, dw, wl, dt, x, y, xe, s, t, sr, inv):
 
 THEMES = [
     theme("a", "%61", "b", "é", "%c3%a9", "v", "hello world!", "hello%20world!", "a~b",
-          "id", "name", "%69d", "swim", "warp", "a_b", ("caf%E9", "caf%e9", "caf%E8")),
+          "id", "name", "%69d", "swim", "warp", "a_b", ("caf%E9", "caf%e9", "caf%E8"), "%41"),
     theme("node-1", "node%2D1", "unit%2Ffoo", "日本", "%e6%97%a5%E6%9C%AC", "x.y_z-0", "%41/é?#",
-          "%2541%2F%c3%a9%3f%23", "~", "x", "x1", "%78", "a+b.c-d", "S", "a b", ("%FF", "%fF", "%FE")),
-    theme("A", "%41", "a", "a b", "%61%20b", "0", ":x", "%3ax", "~~",
-          "a", "A", "%61", "h", "H", "x~", ("%C3", "%c3", "%C2")),
+          "%2541%2F%c3%a9%3f%23", "~", "x", "x1", "%78", "a+b.c-d", "S", "a b", ("%FF", "%fF", "%FE"), "100%25"),
+    theme("A", "%41", "a", "a b", "%61%20b", "0", ":x%4g", "%3ax%254g", "~~",
+          "a", "A", "%61", "h", "H", "x~", ("%C3", "%c3", "%C2"), "a%2Fb"),
     theme("meta.node", "meta%2Enode", "%61", "x?y#z", "x%3fy%23z", "Z9", "a+b&c=d", "a%2bb%26c%3dd", "-~-",
-          "node_id", "lane", "node%5Fid", "swimos", "swimo", "s_", ("%C0%AF", "%c0%af", "%C1%AF")),
+          "node_id", "lane", "node%5Fid", "swimos", "swimo", "s_", ("%C0%AF", "%c0%af", "%C1%AF"), "%2f"),
     theme("z", "%7A", "zz", "50%", "5%30%25", "v1", "%zz", "%25%7a%7A", "x~y",
-          "p q", "é", "p%20q", "w3", "w4", "a^", ("%C3%A9%E9x", "%c3%a9%e9%78", "%C3%A9%E8x")),
+          "p q", "é", "p%20q", "w3", "w4", "a^", ("%C3%A9%E9x", "%c3%a9%e9%78", "%C3%A9%E8x"), "x%00y"),
     theme("q", "%71", "Q", "\U0001f600", "%f0%9f%98%80", "w", "\u0000\n", "%00%0a", "~0",
-          "k", "kk", "%6b", "x", "y", "z z", ("%E6%97", "%e6%97", "%E6%98")),
+          "k", "kk", "%6b", "x", "y", "z z", ("%E6%97", "%e6%97", "%E6%98"), "%e2%82%ac"),
 ]
 
 CHAR_THEMES = [
@@ -508,7 +514,7 @@ def eval_tab(rec, ti, case, res, T):
 
 # ----------------------------------------------------------------------------- BAD: a text repeating a parameter name
 
-BAD_VALS = ["v", "hello world!", "é", "0", "x.y", "z"]
+BAD_VALS = ["v", "hello world!", "é", "a%2Fb", "%4g", "z"]
 
 
 def build_bad(rec, ti, cid):
@@ -558,7 +564,7 @@ def rec_shapes(p):
 
 # ----------------------------------------------------------------------------- STR: a pattern string (parser)
 
-STR_VALS = ["v", "hello world!", "é/%41\ufffd"]
+STR_VALS = ["100%25", "%4g", "é/%41\ufffd"]
 
 
 def str_probe(rec, chars):
